@@ -485,7 +485,7 @@ fn depth2_stats(lo: u32, hi: u32, a0: u32, a1: u32, a2: u32, d1: u64, d2: u64, n
 // @kind core
 // @timeout 3600
 // @mem 40
-// @rss 24
+// @rss 28
 // @functions bigbedwrite::process_val_zoom (coverage sweep + tiling into zoom records): ONE call from an ARBITRARY valid per-level state
 // @bounds (number of tracked pieces symbolic) pre-state: tracked coverage = 0..=2 contiguous pieces starting at the entry's start with strictly decreasing positive depths (what the sweep leaves behind), live zoom record absent or any record satisfying the invariant (ends at or before the entry's start, shorter than the resolution, 1..=len covered bases, depth statistics 1..=3); entry [is,ie) with is <= 4, all coordinates <= 7; the next entry starts at 12 (everything is swept); resolution 3; items_per_slot 8
 // @assumes representation invariant as stated; depths <= 3
